@@ -168,7 +168,15 @@ func convertBag(bag *safeBag, password []byte) (*pem.Block, error) {
 		case *rsa.PrivateKey:
 			block.Bytes = x509.MarshalPKCS1PrivateKey(key)
 		case *ecdsa.PrivateKey:
-			block.Bytes, err = x509.MarshalECPrivateKey(key)
+			if key.Curve == sm2.P256Sm2() {
+				// the standard library does not know the SM2 curve: use the encoder Encode uses for SM2 keys
+				block.Bytes, err = MarshalECPrivateKey(&sm2.PrivateKey{
+					PublicKey: sm2.PublicKey{Curve: key.Curve, X: key.X, Y: key.Y},
+					D:         key.D,
+				})
+			} else {
+				block.Bytes, err = x509.MarshalECPrivateKey(key)
+			}
 			if err != nil {
 				return nil, err
 			}
